@@ -35,6 +35,9 @@ func init() {
 }
 
 func (c *Case) c15Exec(src string, d *xdoc.Doc, ctx *xdoc.Node) {
+	if c.expensiveText(src, d) {
+		return
+	}
 	ce, err := safeCompile(src)
 	c.Rep.Evals++
 	if err != nil || ce == nil {
